@@ -3559,7 +3559,12 @@ class Hex(Adapter):
     """
     def _decode(self, obj, context, path):
         if isinstance(obj, int):
-            return HexDisplayedInteger.new(obj, "0%sX" % (2 * self.subcon._sizeof(context, path)))
+            try:
+                digits = 2 * self.subcon._sizeof(context, path)
+            except SizeofError:
+                # integers of no fixed size (eg. VarInt): as many byte pairs as the value needs
+                digits = 2 * max(1, (abs(obj).bit_length() + 7) // 8)
+            return HexDisplayedInteger.new(obj, "0%sX" % (digits,))
         if isinstance(obj, bytes):
             return HexDisplayedBytes(obj)
         if isinstance(obj, dict):
